@@ -41,7 +41,7 @@ VARIABLES
     position, bufferStart, bufNil,      \* the qLogFile
     pc,                                 \* "idle" | "probe" (inside the loop of seekTS)
     sTarget, sStart, sEnd, sProbe, sLast, sDepth,   \* locals of seekTS
-    seeked,                             \* has any seek been made (for the refinement mapping)
+    seeked,                             \* has any seek succeeded (for the refinement mapping)
     out                                 \* reply of the last completed call
 
 fileVars   == <<ends, tss>>
@@ -156,9 +156,9 @@ SeekTSBegin(t) ==
     /\ sTarget' = t
     /\ sDepth' = 0
     /\ IF EmptyGuard /\ Size = 0                                                \* :129-134
-         THEN /\ pc' = "idle" /\ seeked' = TRUE
+         THEN /\ pc' = "idle"
               /\ out' = Reply("seek", t, "tooEarly", 0)
-              /\ UNCHANGED <<position, bufferStart, sStart, sEnd, sProbe, sLast>>
+              /\ UNCHANGED <<position, bufferStart, seeked, sStart, sEnd, sProbe, sLast>>
          ELSE /\ sStart' = 0 /\ sEnd' = Size /\ sProbe' = Size \div 2           \* :126-136
               /\ sLast' = -1                                                    \* :144
               /\ pc' = "probe"
@@ -167,7 +167,7 @@ SeekTSBegin(t) ==
 \* How a seek returns: with an error (position untouched) ...
 SeekFails(e) ==
     /\ pc' = "idle"
-    /\ seeked' = TRUE
+    /\ UNCHANGED seeked          \* only a seek that succeeds positions the reader
     /\ out' = Reply("seek", sTarget, e, 0)
     /\ UNCHANGED <<position, searchVars>>
 \* ... or with the position set (:206).
@@ -202,7 +202,7 @@ Probe ==
        ELSE LET start2 == IF ts > sTarget THEN sStart ELSE r.lineEndIdx         \* :181-191
                 end2   == IF ts > sTarget THEN r.lineIdx ELSE sEnd
             IN IF sDepth + 1 >= DepthLimit                                      \* :194-203
-               THEN /\ pc' = "idle" /\ seeked' = TRUE                          \* returns the
+               THEN /\ pc' = "idle" /\ UNCHANGED seeked                        \* returns the
                     /\ out' = Reply("seek", sTarget, "notFound", 0)            \* incremented depth
                     /\ sDepth' = sDepth + 1
                     /\ UNCHANGED <<position, sTarget, sStart, sEnd, sProbe, sLast>>
